@@ -717,7 +717,11 @@ class Grammar(Model):
         directives = ''
         # noinspection PyUnresolvedReferences
         for name, value in self.directives.items():
-            if name in regex_directives:
+            if name == 'whitespace' and value is None:
+                directives += f'@@{name} ::\n'
+            elif name == 'whitespace' and not value:
+                directives += f'@@{name} :: None\n'
+            elif name in regex_directives:
                 if '/' in value:
                     directives += f'@@{name} :: ?"{value}"\n'
                 else:
